@@ -185,3 +185,46 @@ def vector_programs(seed, n, syms=gen.SYMS, tids=None):
         steps.append(rel("same", "C08.vector.operands_reusable", "b_add", "b_add_again"))
         progs.append({"tid": tids(), "inputs": {"v": v, "w": w, "u": u, "sq": sq}, "steps": steps})
     return progs
+
+
+def mixed_programs(seed, n, syms=gen.SYMS, tids=None, kinds=("abelian",), norm_clause=None):
+    """Arrays whose blocks have DIFFERENT element types: a real array plus a complex one that stores fewer sectors
+    (possibly not the first).  Every unary operation and reduction on the sum must treat each block by its own type."""
+    tids = tids or gen.Tids()
+    progs = []
+    for i in range(n):
+        rng = gen.rng_for(seed, "mixed", i)
+        sym = syms[i % len(syms)]
+        kind = kinds[i % len(kinds)]
+        rank = rng.randint(1, 3)
+        x = gen.rand_array(rng, sym, rank, kind, dtype=rng.choice(["float64", "float32"]), sparse=0.0, minc=2, oddpos=3)
+        x["drop"] = []
+        nsec = len(gen.D.valid_sectors(sym, x["ix"], tuple(x["charge"])))
+        z = dict(x)
+        z["dtype"] = "complex128" if x["dtype"] == "float64" else "complex64"
+        z["fill"] = {"start": 20, "step": 1, "alt": True}
+        k = rng.randint(1, max(1, nsec - 1)) if nsec > 1 else 0
+        z["drop"] = sorted(set([0] if rng.random() < 0.6 and nsec > 1 else []) | set(rng.sample(range(nsec), k))) if nsec > 1 else []
+        if len(z["drop"]) >= nsec and nsec:
+            z["drop"] = z["drop"][:-1]
+        steps = [{"op": "add", "in": ["x", "z"], "out": ["m"], "args": {}},
+                 {"op": "add", "in": ["z", "x"], "out": ["mr"], "args": {}}]
+        for src in ("m", "mr"):
+            three(steps, "conj", [src], {}, f"cj{src}")
+            steps.append({"op": "dagger", "in": [src], "out": [f"dg{src}"], "args": {}})
+            steps.append({"op": "H", "in": [src], "out": [f"H{src}"], "args": {}})
+            perm = list(range(rank))
+            rng.shuffle(perm)
+            steps.append({"op": "transpose", "in": [src], "out": [f"tr{src}"], "args": {"axes": perm}})
+            steps.append({"op": "neg", "in": [src], "out": [f"ng{src}"], "args": {}})
+            steps.append({"op": "smul", "in": [src], "out": [f"sm{src}"], "args": {"k": [2, 1]}})
+            three(steps, "norm_sq", [src], {}, f"nn{src}")
+            three(steps, "sum", [src], {}, f"su{src}")
+            three(steps, "abs", [src], {}, f"ab{src}")
+            steps.append({"op": "to_dense", "in": [src], "out": [f"dn{src}"], "args": {}})
+            steps.append({"op": "sub", "in": [src, "z"], "out": [f"sb{src}"], "args": {}})
+            steps.append({"op": "mul", "in": [src, "z"], "out": [f"ml{src}"], "args": {}})
+            if norm_clause:
+                steps.append({"op": "rel", "in": [f"nn{src}_m", src], "out": [], "args": {"how": "norm2", "clause": norm_clause}})
+        progs.append({"tid": tids(), "inputs": {"x": x, "z": z}, "steps": steps})
+    return progs
